@@ -34,6 +34,8 @@ CONSTANTS
   Classes,         \* the `classes` value (Seq of Seq of variants)
   MaxLosses, MaxCancels, MaxFails, MaxLaunchFails,
   PfReserve, PfMax, \* proactive filling configuration (SchedulerConfig)
+  SlowStop,        \* TRUE: an execution told to stop by a cancel does not end at once - the worker keeps it (and its resources) until
+                   \*       a later step TaskDie; FALSE: it ends in the step that delivers the cancel
   Journaling,      \* TRUE: the model keeps the journal (history variable; small instances only) and the restore invariants apply
   Eager            \* TRUE: the scheduler leaves no task behind that still fits somewhere (assumption used for C02)
 
@@ -814,7 +816,10 @@ WkRecv(w) ==
                    \* backlog entries of canceled tasks are dropped; running ones get the stop signal and end (each with its own message)
                    W1 == [W EXCEPT !.wq = [rq \in DOMAIN W.wq |-> SelectSeq(W.wq[rq], LAMBDA x : x.t \notin ids)]]
                    hit == SetToSortSeq({x \in W1.running : x.t \in ids}, LAMBDA a, b : a.t < b.t)
-                   W2 == FoldSeqLeft(LAMBDA WW, x : WTaskEnd([WW EXCEPT !.stops = Append(@, [t |-> x.t, w |-> w, inst |-> x.inst, reason |-> "cancel"])], w, x, "none"),
+                   W2 == FoldSeqLeft(LAMBDA WW, x :
+                                       LET WS == [WW EXCEPT !.stops = Append(@, [t |-> x.t, w |-> w, inst |-> x.inst, reason |-> "cancel"])] IN
+                                       IF SlowStop THEN [WS EXCEPT !.fut = @ \ {[w |-> w, t |-> x.t, inst |-> x.inst]}]   \* stays in `running`, dying
+                                       ELSE WTaskEnd(WS, w, x, "none"),
                                      W1, hit)
                IN /\ WCommit(W2, w, rest)
                   /\ wCancel' = wCancel \cup {<<w, t>> : t \in ids}
@@ -829,6 +834,15 @@ TaskExit(f, ok) ==
   /\ ranOk' = IF ok THEN ranOk \cup {[t |-> f.t, w |-> f.w, inst |-> f.inst]} ELSE ranOk
   /\ budget' = IF ok THEN budget ELSE [budget EXCEPT !.fails = @ - 1]
   /\ UNCHANGED <<coreVars, job, tinfo, hist, cancelAck, nCompleted, exceeded, mustCrash, mayCrash, panic, submitted, wCancel, gaveBack, drift, journal, late>> /\ unchangedStatic
+
+\* the process of an execution that was told to stop is gone (SlowStop): only now the worker releases its resources, starts
+\* pre-sent tasks and re-enables request shapes
+Dying(w) == {x \in wk[w].running : [w |-> w, t |-> x.t, inst |-> x.inst] \notin fut}
+TaskDie(w, x) ==
+  /\ panic = "" /\ w \in DOMAIN wk /\ x \in Dying(w)
+  /\ WCommit(WTaskEnd(WRec(w), w, x, "none"), w, wk[w].s2w)
+  /\ UNCHANGED <<coreVars, job, tinfo, hist, ranOk, cancelAck, nCompleted, exceeded, mustCrash, mayCrash, panic, submitted, wCancel, gaveBack, budget, drift, journal, late>>
+  /\ unchangedStatic
 
 \* the launch of a task that is on its way to a worker will fail
 ArmLaunchFail(t) ==
@@ -941,6 +955,7 @@ Next ==
   \/ \E w \in DOMAIN srv : LoseWorker(w, TRUE) \/ LoseWorker(w, FALSE)
   \/ TimeTick
   \/ ConnectWorker
+  \/ \E w \in DOMAIN wk : \E x \in Dying(w) : TaskDie(w, x)
 
 Spec == Init /\ [][Next]_mvars
 
